@@ -1,6 +1,7 @@
 package main
 
 import (
+	"bytes"
 	"fmt"
 	"os"
 	"os/exec"
@@ -35,6 +36,32 @@ func (g *gen) total(out, line string) {
 }
 
 func genC14(g *gen) {
+	// a verification that succeeds, followed by untrusted bytes sized for the other Winternitz parameters (and back), in
+	// several orders: what an accepted signature leaves behind must not make the next call fault
+	g.note("XMSS verification: an accepted signature, then well-sized garbage for other parameters")
+	{
+		kx := newKey(g.bytes(48), 4, g.rng.Intn(3))
+		kpk := kx.GetPK()
+		km := g.bytes(7)
+		ksig, _ := kx.Sign(km)
+		seq := []string{fmt.Sprintf("x.verify 16 %s %s %s", hx(km), hx(ksig), hx(kpk[:]))}
+		for _, w := range []int{4, 256, 16} {
+			ks := map[int]int{4: 133 * 32, 256: 34 * 32, 16: 67 * 32}[w]
+			seq = append(seq, fmt.Sprintf("x.verify %d %s %s %s", w, hx(km), hx(g.bytes(36+ks+32*4)), hx(kpk[:])))
+		}
+		for round := 0; round < 5; round++ {
+			for _, i := range append([]int{0}, g.rng.Perm(len(seq))...) {
+				out := execOp(g.st, seq[i])
+				g.total(out, seq[i])
+				if round == 0 {
+					g.total(g.op("%s", seq[i]), seq[i])
+				}
+				if i != 0 {
+					g.total(execOp(g.st, seq[0]), seq[0])
+				}
+			}
+		}
+	}
 	g.note("XMSS verification: sizes around every boundary, w in {4,16,256}")
 	msg := g.bytes(5)
 	pk := g.bytes(67)
@@ -361,6 +388,46 @@ func genC15(g *gen) {
 			for i := npre; i < len(script); i++ {
 				g.check(got[i] == want[script[i]], "history-free-process", "in a fresh process, after unusual first calls, a stateless call / fresh key answers differently: "+trunc(script[i], 60), append(append([]string{}, script[:npre]...), script[i])...)
 			}
+		}
+	}
+	// two key objects built one after the other from the same seed at height 10 (taller trees take other paths through
+	// key generation than the small ones above), used side by side: each behaves like a key that is alone
+	g.note("two objects of one seed, height 10")
+	{
+		tseed := g.bytes(48)
+		ref := newKey(tseed, 10, 1)
+		var wantSigs [][]byte
+		for i := 0; i < 4; i++ {
+			sg, _ := ref.Sign([]byte{byte(i)})
+			wantSigs = append(wantSigs, sg)
+		}
+		a, b := newKey(tseed, 10, 1), newKey(tseed, 10, 1)
+		ops := []string{fmt.Sprintf("x.new a %s 10 1 0", hx(tseed)), fmt.Sprintf("x.new b %s 10 1 0", hx(tseed))}
+		for i := 0; i < 4; i++ {
+			sa, _ := a.Sign([]byte{byte(i)})
+			g.check(bytes.Equal(sa, wantSigs[i]), "history-free", fmt.Sprintf("a second key object of the same seed (height 10) signs index %d differently from the first", i), append(ops, "x.sign a …")...)
+		}
+		var wg2 sync.WaitGroup
+		c, d := newKey(tseed, 10, 1), newKey(tseed, 10, 1)
+		res := make([][][]byte, 3)
+		for t, k := range []*xmss.XMSS{b, c, d} {
+			wg2.Add(1)
+			go func(t int, k *xmss.XMSS) {
+				defer wg2.Done()
+				defer func() { recover() }()
+				for i := 0; i < 4; i++ {
+					sg, _ := k.Sign([]byte{byte(i)})
+					res[t] = append(res[t], sg)
+				}
+			}(t, k)
+		}
+		wg2.Wait()
+		for t := range res {
+			okAll := len(res[t]) == 4
+			for i := 0; okAll && i < 4; i++ {
+				okAll = bytes.Equal(res[t][i], wantSigs[i])
+			}
+			g.check(okAll, "concurrent-private-xmss", "distinct XMSS key objects of the same seed (height 10) used in parallel do not sign like a key that is alone", ops...)
 		}
 	}
 	// concurrency: N goroutines, stateless calls + the shared Dilithium key + private XMSS keys
